@@ -1,5 +1,6 @@
-(* C39 proofs, part 4: the repair.  In the variant of the model in which the whole body of
-   allocate runs under one mutex (release stays lock-free) the total never exceeds the limit,
+(* C39 proofs, part 4: the hard limit of the code as it is (since /repo commit 0306f36, which
+   applied fixes/C39-allocate-under-lock.diff).  In the model variant lk = true the whole body of
+   allocate runs under one mutex (release stays lock-free) and the total never exceeds the limit,
    for every schedule, every number of threads and with spurious CAS failures: while a thread
    holds the mutex nobody else can add to a counter, so every value in the holder's snapshot is
    an upper bound of the counter it was read from. *)
@@ -140,13 +141,13 @@ Proof.
   intro Hwf. apply (MInv_run true GR LR); [apply LR_step | apply LR_spur_a | apply LR_spur_r | apply MInvR_init; exact Hwf].
 Qed.
 
-(* the repaired allocate makes the budget a hard limit *)
-Theorem repaired_within_limit_l : forall limreq ps w, progs_wf ps = true ->
+(* the budget is a hard limit *)
+Theorem budget_hard_limit_l : forall limreq ps w, progs_wf ps = true ->
   let s := run (step_w true) w (init limreq ps) in total (sh s) <= lim s.
 Proof. intros limreq ps w Hwf. exact (proj2 (proj1 (MInvR_run limreq ps w Hwf))). Qed.
 
 (* ... and at most one thread is inside allocate's critical section *)
-Theorem repaired_mutual_exclusion_l : forall limreq ps w t u th thu, progs_wf ps = true ->
+Theorem allocate_mutual_exclusion_l : forall limreq ps w t u th thu, progs_wf ps = true ->
   let s := run (step_w true) w (init limreq ps) in
   lget (thrs s) t = Some th -> lget (thrs s) u = Some thu ->
   in_body (tpc th) = true -> in_body (tpc thu) = true -> t = u.
